@@ -39,7 +39,7 @@ def rules(ctx: Ctx) -> None:
     # ---- R16.1 -----------------------------------------------------------------------------
     for name, i in ids.items():
         ctx.touched(i.eq_fn, i.hash_fn)
-        ctx.ob("R16.1", f"hash-determined-by-eq:{name}", i.hash_fields <= i.eq_fields, i.cls.loc(),
+        ctx.ob("R16.1", f"hash-determined-by-eq:{name}", i.hash_fields <= i.eq_fields and all(hp in i.eq_projs for hp in i.hash_projs), i.cls.loc(),
                f"{name}: __hash__ depends on {sorted(i.hash_fields)}, __eq__ compares {sorted(i.eq_fields)}: whatever is hashed must be determined by what is compared")
         ctx.ob("R16.1", f"eq-guards-class:{name}", i.eq_isinstance == name, i.cls.loc(), f"{name}.__eq__ compares only with instances of {name} (isinstance guard is {i.eq_isinstance})")
         ctx.ob("R16.1", f"eq-compares-something:{name}", bool(i.eq_projs), i.cls.loc(), f"{name}.__eq__ compares {i.eq_projs}", trivial=True)
